@@ -358,10 +358,37 @@ def _do_get(self, event):
 ''')
 
 
+# what the network elements need from the kernel stores: they are created unbounded, so only the
+# ends (tail insert / head removal / heap order) matter; the cell "exactly full" is left open
+spec('Store', '_do_put@unbounded', what='unbounded use: accepted items are inserted at the tail')('''
+def _do_put(self, event):
+    if len(self.items) < self._capacity:
+        self.items.append(event.item)
+        event.succeed()
+        return True
+    elif len(self.items) == self._capacity:
+        DONTCARE()
+    else:
+        return False
+''')
+
+spec('PriorityStore', '_do_put@unbounded', what='unbounded use: accepted items are heap-inserted')('''
+def _do_put(self, event):
+    if len(self.items) < self._capacity:
+        heappush(self.items, event.item)
+        event.succeed()
+        return True
+    elif len(self.items) == self._capacity:
+        DONTCARE()
+    else:
+        return False
+''')
+
+
 def run_tables(ctx, prefix, keys):
     for (c, m) in keys:
         d = SPECS[(c, m)]
-        ctx.table('%s.T.%s.%s' % (prefix, c, m), c, m, d['src'], d['view'] or KVIEW, d['opts'], own=True,
+        ctx.table('%s.T.%s.%s' % (prefix, c, m), c, m.split('@')[0], d['src'], d['view'] or KVIEW, d['opts'], own=True,
                   what=d['what'] or '%s.%s as the property requires' % (c, m))
 
 
